@@ -471,47 +471,54 @@ def send_packet_awaited(ctx, prop, only=None):
 
 def server_yield_whitelist(ctx, prop):
     """the only suspension points of a scheduler's run(): the dequeue, the awaited send, the wake-up wait
-    guarded by total_packets == 0"""
+    guarded by total_packets == 0 (tested in the same instant as the wait: no yield in between)"""
     rule = prop + '.C.yield_whitelist'
     n = 0
     for c in ctx.repo.subclasses('Scheduler', strict=True):
         f = c.methods.get('run')
         if f is None or not f.is_generator():
             continue
-        parents = {}
-        for node in ast.walk(f.node):
-            for ch in ast.iter_child_nodes(node):
-                parents[ch] = node
-        for node in walk_local(f.node):
-            if not isinstance(node, ast.Yield):
-                continue
-            n += 1
-            v = node.value
-            s = ast.unparse(v) if v is not None else ''
-            kind = None
-            if isinstance(v, ast.Call) and isinstance(v.func, ast.Attribute) and v.func.attr == 'get' and not v.args:
-                recv = ast.unparse(v.func.value)
-                if recv == 'self.packets_available':
-                    # must be the body of `if self.total_packets == 0:`
-                    p = parents.get(node)
-                    while p is not None and not isinstance(p, (ast.If, ast.While, ast.For, ast.FunctionDef)):
-                        p = parents.get(p)
-                    guard = isinstance(p, ast.If) and ast.unparse(p.test).replace(' ', '') in ('self.total_packets==0', '0==self.total_packets', 'notself.total_packets')
-                    kind = 'wakeup' if guard else 'unguarded wake-up wait'
-                elif 'store' in recv:
-                    kind = 'dequeue'
-            elif isinstance(v, ast.Call) and isinstance(v.func, ast.Attribute) and v.func.attr == 'process' and v.args \
-                    and isinstance(v.args[0], ast.Call) and ast.unparse(v.args[0].func) == 'self.send_packet':
-                kind = 'send'
-            ok = kind in ('wakeup', 'dequeue', 'send')
-            ctx.ob(rule, ok)
-            construct = '%s::%s.run' % (f.module.relpath, c.name)
-            if ok:
-                ctx.sample(rule, construct, 'yield %s is the %s' % (s, kind))
-            else:
-                ctx.violation(rule, construct, 'yield %s' % re.sub(r'\s+', ' ', s),
-                              '%s.run suspends on `%s` (%s): the server idles with a backlog or is reordered against same-instant arrivals' % (c.name, s, kind or 'not a dequeue, an awaited send or the guarded wake-up wait'),
-                              where='%s:%d' % (f.module.relpath, node.lineno))
+        paths = ctx.paths(c, f, Options())
+        construct = '%s::%s.run' % (f.module.relpath, c.name)
+        seen = set()
+
+        def visit(ps):
+            nonlocal n
+            for p in ps:
+                for e in p.effects:
+                    if e.kind == 'loop':
+                        visit(e.region.paths)
+                    if e.kind != 'yield':
+                        continue
+                    v = e.value
+                    kind = None
+                    calls = [x for x in p.effects if x.kind == 'call' and x.sym == v]
+                    callee = calls[0].target if calls else (v[:-2] if v.endswith('()') else v)
+                    args = calls[0].args if calls else ()
+                    if callee == 'self.packets_available.get':
+                        tag = '@%d' % e.epoch if e.epoch else ''
+                        want = 'sum(self.queue_count%s.values())' % tag
+                        guard = any(a[0] == 'cmp' and a[1] == want and a[2] == 0 and a[3] == '==' and pol for a, pol, _ in p.lits)
+                        kind = 'wakeup' if guard else 'wake-up wait not guarded by total_packets == 0 in the same instant'
+                    elif callee.endswith('.get') and ('store' in callee):
+                        kind = 'dequeue'
+                    elif callee.endswith('.process') and args and args[0].startswith('self.send_packet('):
+                        kind = 'send'
+                    key = (e.lineno, v, kind)
+                    if key in seen:
+                        continue
+                    seen.add(key)
+                    n += 1
+                    ok = kind in ('wakeup', 'dequeue', 'send')
+                    ctx.ob(rule, ok)
+                    if ok:
+                        ctx.sample(rule, construct, 'yield %s is the %s' % (callee, kind))
+                    else:
+                        ctx.violation(rule, construct, 'yield %s' % callee,
+                                      '%s.run suspends on `%s` (%s): the server idles with a backlog or is reordered against same-instant arrivals' % (
+                                          c.name, callee, kind or 'not a dequeue, an awaited send or the guarded wake-up wait'),
+                                      where='%s:%d' % (f.module.relpath, e.lineno))
+        visit(paths)
     ctx.floor(rule, n, 14, 'suspension points in scheduler loops')
 
 
